@@ -340,6 +340,9 @@ def describe(case):
 
 
 def strategy(ctx):
+    global _BASE
+    if _BASE is None:
+        _BASE = ctx.tmp  # also used by the runner's shrink worker, whose scratch dir is removed by ctx.cleanup()
     return G.strategy(), "c15"
 
 
